@@ -744,6 +744,12 @@ func writeEvidence(id, tier string, seed int, pc *PropCfg, ld *Loaded, ex *Exec,
 		"SMT solvers z3 4.8.12 / z3 5.1.0 / cvc5 1.0.3 are sound when they answer unsat",
 	}
 	trusted = append(trusted, pc.Assume...)
+	var used []string
+	for k := range ModelsUsed {
+		used = append(used, k)
+	}
+	sort.Strings(used)
+	trusted = append(trusted, used...)
 	for _, t := range trustedContracts {
 		trusted = append(trusted, "assumed (unverified) contract: "+t)
 	}
